@@ -1,7 +1,7 @@
 (* Correspondence cases for C20: (a) emission sequences executed against the real Prometheus
    wrapper, (b) the regenerated table's rows executed once each, (c) hostile requests through the
    real handlers, each followed by a health probe and a revision-progress probe. *)
-From KB Require Export Base.Cases Model.Metrics Model.Handlers.
+From KB Require Export Base.Cases Model.Metrics Model.Handlers Model.HandlerMetrics.
 Open Scope N_scope.
 
 Inductive req_outcome := OResp | OErr | OPanic | OExit | OWedge.
@@ -16,6 +16,7 @@ Inductive c20_case :=
 (* one request on a leader: outcome class, revisions it allocated, health probe, progress probe *)
 | KReq (r : request) (o : req_outcome) (alloc : Z) (health progress : bool)
        (lst : option (Z * bool))          (* list responses: number of kvs returned, More *)
+       (ems : list emission)              (* what the handler's own goroutine emitted during the call *)
 (* one pure watch on an etcd stream of a leader, ended by a client cancel request or by the stream:
    how many Canceled responses with CompactRevision = 0 the server sent for its watch id *)
 | KCancel (client_cancelled : bool) (canceled_responses : N)
@@ -50,20 +51,26 @@ Definition c20_check (t : list row) (c : c20_case) : bool :=
       | Some r, None => match r_name r, r_labels r with Some _, Some ls => existsb (fun l => match snd l with VUnknown => true | _ => false end) ls | _, _ => true end
       | None, _ => false
       end
-  | KReq r o alloc _ _ lst =>
-      match o, handle r with
-      | (OResp | OErr), HReject => (match o with OErr => true | _ => false end) && (alloc =? 0)%Z
-      | (OResp | OErr), HRun n => (alloc =? Z.of_N n)%Z
-      | (OResp | OErr), HPanic => false
-      | _, _ => true      (* a crash is the oracle's business *)
+  | KReq r o alloc health progress lst ems =>
+      (* every metric the handler emitted itself is an instance of one of the rows the model gives its kind *)
+      forallb (fun e => existsb (fun h => instance_of h e) (handler_rows r)) ems &&
+      (* the observed outcome class and allocation are the ones the handler model predicts *)
+      match handle_p r, o with
+      | HReject, OErr => (alloc =? 0)%Z
+      | HRun n, (OResp | OErr) => (alloc =? Z.of_N n)%Z
+      | HPanic, OPanic => true       (* the model predicting a panic: excluded by handle_p_no_panic *)
+      | _, _ => false
       end &&
       match o, lst, list_limit_of r with
       | OResp, Some (count, more), Some limit => list_response_ok limit count more
       | OResp, None, Some _ => false
       | _, _, _ => true
-      end
+      end &&
+      (* the model of the node below the handlers predicts that it keeps serving: every allocated revision is
+         resolved (C04) and the hub keeps delivering to the other watchers (C05, cited in Props/C20.v) *)
+      health && progress
   | KCancel cc n => n =? watch_cancel_responses true cc
-  | KPath _ => true
+  | KPath identity => identity     (* Model/Metrics.labels_to_map / label_names hand names and values on unchanged *)
   end.
 
 Definition all_ok (obs : list outcome) : bool := forallb (fun o => outcome_eqb o Ok) obs.
@@ -71,7 +78,7 @@ Definition all_ok (obs : list outcome) : bool := forallb (fun o => outcome_eqb o
 (* the property on the implementation's own observation *)
 Definition c20_oracle (gn : option (list str)) (t : list row) (c : c20_case) : option N :=
   match c with
-  | KSeq _ _ _ _ => None                                   (* model validation only: panics are intended *)
+  | KSeq _ _ _ _ => None      (* model validation only (the sequences are hostile on purpose): judged by c20_check *)
   | KRows _ _ _ obs => ok_if (all_ok obs)
   | KRow site _ _ =>
       (* static: the row passes the table check (a panic observed for it fails the KRows case) *)
@@ -79,25 +86,55 @@ Definition c20_oracle (gn : option (list str)) (t : list row) (c : c20_case) : o
       | Some gn, Some r => ok_if (row_ok gn t r)
       | _, _ => Some 0
       end
-  | KReq _ o _ health progress _ =>
+  | KReq _ o _ health progress _ _ =>
       ok_if (match o with OResp | OErr => true | _ => false end && health && progress)
   | KCancel _ _ =>
-      (* how often the server answers a cancelled watch is etcd-compatibility (C16), not a crash of the
-         node: the case only ties Handlers.watch_cancel_responses to the code (see props/C20.json, notes) *)
+      (* model validation only: how often the server answers a cancelled watch is etcd-compatibility (C16), not
+         a crash of the node; the case ties Handlers.watch_cancel_responses to the code (props/C20.json, notes) *)
       None
   | KPath identity => ok_if identity
   end.
 
-(* validity of a recorded metric case: the regenerated table passes the check (Gen.MetricsTableOk.table_ok)
-   and the run used the program's global label names with valid values; request cases are outside
-   the metric model (their oracle is decided by the driver's probes) *)
+(* validity of a recorded case: what the soundness theorem assumes about it and the model can decide.
+   - table cases: the regenerated table passes the check (Gen.MetricsTableOk.table_ok) and the run used the
+     program's global label names with valid values;
+   - request cases: every request of a modelled kind is valid (all constructors of [request]); what the probes
+     saw is part of the observation, compared with the model's prediction by c20_check;
+   - KSeq / KCancel / KPath: no assumption. *)
 Definition c20_valid (gn : option (list str)) (t : list row) (c : c20_case) : Prop :=
   match c with
-  | KSeq _ _ _ _ => True
   | KRows g _ _ _ =>
       exists gn', gn = Some gn' /\ map fst g = gn' /\ Forall (fun v => valid_utf8 v = true) (map snd g) /\ check gn' t = true
   | KRow _ _ _ => check_program gn t = true
-  | KReq _ _ _ _ _ _ => False
-  | KCancel _ _ => True
-  | KPath identity => identity = true
+  | _ => True
   end.
+
+Definition c20_validb (gn : option (list str)) (t : list row) (c : c20_case) : bool :=
+  match c with
+  | KRows g _ _ _ =>
+      match gn with
+      | Some gn' => list_eqb seqb (map fst g) gn' && forallb valid_utf8 (map snd g) && check gn' t
+      | None => false
+      end
+  | KRow _ _ _ => check_program gn t
+  | _ => true
+  end.
+
+(* what a shard evaluates: the case agrees with the model, and it is either covered by the soundness theorem
+   (valid) or already rejected by the oracle; a case that is neither shows up as a mismatch *)
+Definition c20_check_covered (gn : option (list str)) (t : list row) (c : c20_case) : bool :=
+  c20_check t c && (c20_validb gn t c || match c20_oracle gn t c with Some _ => true | None => false end).
+
+(* the same with the table check evaluated once per shard ([tv] = check_program gn t) *)
+Definition c20_validb_with (tv : bool) (gn : option (list str)) (t : list row) (c : c20_case) : bool :=
+  match c with
+  | KRows g _ _ _ =>
+      match gn with
+      | Some gn' => list_eqb seqb (map fst g) gn' && forallb valid_utf8 (map snd g) && tv
+      | None => false
+      end
+  | KRow _ _ _ => tv
+  | _ => c20_validb gn t c
+  end.
+Definition c20_check_covered_with (tv : bool) (gn : option (list str)) (t : list row) (c : c20_case) : bool :=
+  c20_check t c && (c20_validb_with tv gn t c || match c20_oracle gn t c with Some _ => true | None => false end).
